@@ -764,6 +764,304 @@ def model_tie(ctx, spec, data, wit, expr, program, npd, expected, bad, code):
     return True
 
 
+
+# ---------------------------------------------------------------------------------------------
+# parametrised ops (program._print_op): clamp, reductions (axis x keepdims x ddof), argmax/argmin, getslice,
+# getitem(offset), reshape/transpose/permute/unsqueeze/expand, triangular_solve/inv.
+# pspec nodes:  ["var", name, [shape]]  ["num", v]  ["ew", op, i, j]  ["un", op, i]
+#               ["pop", op, [params], i]   (ops.<op>(arg, *params), lists = tuples)
+#               ["pbin", op, [params], i, j]   ["slice", "<python index expr>", i]   ["getitem", offset, i, k, size]
+#               ["tuple", [i…]]
+# ---------------------------------------------------------------------------------------------
+
+P_INPUTS = {"x": [3, 2], "y": [2], "s": [], "A": [2, 2], "B": [2, 1]}
+P_DATA = {"x": [[1.0, -2.0], [0.5, 3.0], [-1.0, 0.25]], "y": [2.0, -0.5], "s": 1.5,
+          "A": [[2.0, 0.0], [1.0, 4.0]], "B": [[1.0], [2.0]]}
+REDUCTIONS = ["sum", "prod", "amax", "amin", "logsumexp", "mean"]
+BOOL_REDUCTIONS = ["all", "any"]
+ARG_REDUCTIONS = ["argmax", "argmin"]
+MOMENT_REDUCTIONS = ["std", "var"]
+SLICES = ["0", "(slice(None, None, None), 1)", "slice(1, 3, None)", "(Ellipsis, 0)", "(0, 1)", "slice(None, None, 2)",
+          "(slice(0, 2, None), slice(None, None, None))", "-1"]
+
+
+def _tup(v):
+    return tuple(_tup(x) for x in v) if isinstance(v, list) else v
+
+
+def pbuild(pspec):
+    built = []
+    with {"reflect": reflect, "lazy": lazy}[pspec.get("interp", "reflect")]:
+        for nd in pspec["nodes"]:
+            k = nd[0]
+            if k == "var":
+                f = Variable(nd[1], Reals[tuple(nd[2])] if nd[2] else Real)
+            elif k == "num":
+                f = Number(nd[1])
+            elif k == "ew":
+                f = Binary(getattr(ops, nd[1]), built[nd[2]], built[nd[3]])
+            elif k == "un":
+                f = Unary(getattr(ops, nd[1]), built[nd[2]])
+            elif k == "pop":
+                f = getattr(ops, nd[1])(built[nd[3]], *[_tup(v) for v in nd[2]])
+            elif k == "pbin":
+                f = getattr(ops, nd[1])(built[nd[3]], built[nd[4]], *[_tup(v) for v in nd[2]])
+            elif k == "slice":
+                f = built[nd[2]][eval(nd[1], {"__builtins__": {}}, {"slice": slice, "Ellipsis": Ellipsis})]
+            elif k == "getitem":
+                f = Binary(ops.GetitemOp(nd[1]), built[nd[2]], Number(nd[3], nd[4]))
+            elif k == "tuple":
+                f = Tuple(tuple(built[i] for i in nd[1]))
+            else:
+                raise ValueError(k)
+            built.append(f)
+    return built[pspec["root"]]
+
+
+P_TEMPLATE = """
+# replay for C18 (parametrised ops, {what}): substitution vs program vs pickled program vs exec(as_code())
+import json, pickle, numpy as np
+import funsor, funsor.ops as ops
+funsor.set_backend("numpy")
+from funsor.terms import Variable, Number, Unary, Binary, Tuple
+from funsor.domains import Real, Reals
+from funsor.interpretations import reflect, lazy
+from funsor.compiler import compile_funsor
+pspec = json.loads({spec!r})
+data = {{k: np.array(v, dtype=np.float64) for k, v in json.loads({data!r}).items()}}
+tup = lambda v: tuple(tup(x) for x in v) if isinstance(v, list) else v
+b = []
+with {{"reflect": reflect, "lazy": lazy}}[pspec.get("interp", "reflect")]:
+    for nd in pspec["nodes"]:
+        k = nd[0]
+        if k == "var": f = Variable(nd[1], Reals[tuple(nd[2])] if nd[2] else Real)
+        elif k == "num": f = Number(nd[1])
+        elif k == "ew": f = Binary(getattr(ops, nd[1]), b[nd[2]], b[nd[3]])
+        elif k == "un": f = Unary(getattr(ops, nd[1]), b[nd[2]])
+        elif k == "pop": f = getattr(ops, nd[1])(b[nd[3]], *[tup(v) for v in nd[2]])
+        elif k == "pbin": f = getattr(ops, nd[1])(b[nd[3]], b[nd[4]], *[tup(v) for v in nd[2]])
+        elif k == "slice": f = b[nd[2]][eval(nd[1])]
+        elif k == "getitem": f = Binary(ops.GetitemOp(nd[1]), b[nd[2]], Number(nd[3], nd[4]))
+        elif k == "tuple": f = Tuple(tuple(b[i] for i in nd[1]))
+        b.append(f)
+expr = b[pspec["root"]]
+def extract(x):
+    return tuple(extract(a) for a in x.args) if isinstance(x, Tuple) else x.data
+def same(a, b):
+    if isinstance(a, tuple) or isinstance(b, tuple):
+        return isinstance(a, tuple) and isinstance(b, tuple) and len(a) == len(b) and all(same(x, y) for x, y in zip(a, b))
+    a, b = np.asarray(a, dtype=float), np.asarray(b, dtype=float)
+    return a.shape == b.shape and bool(np.allclose(a, b, rtol=1e-11, atol=1e-11, equal_nan=True))
+data = {{k: v for k, v in data.items() if k in expr.inputs}}
+FAILS = False
+with np.errstate(all="ignore"):
+    expected = extract(funsor.reinterpret(expr(**data)))
+    program = compile_funsor(expr)
+    variants = [("program", program), ("pickle", pickle.loads(pickle.dumps(program)))]
+    try:
+        env = {{}}; exec(program.as_code(), None, env); variants.append(("as_code", env["program"]))
+    except (SyntaxError, NotImplementedError, ValueError) as e:
+        print("as_code declined:", repr(e))
+    for nm, fn in variants:
+        try:
+            got = fn(**data)
+        except Exception as e:
+            print(nm, "raised", repr(e)); FAILS = True; continue
+        print(nm, got, "expected", expected)
+        FAILS = FAILS or not same(got, expected)
+print("FAILS =", FAILS)
+"""
+
+
+def check_pcase(ctx, pspec, use_driver=True, label="param"):
+    wit = {"pspec": pspec, "data": P_DATA, "stream": label}
+    py = P_TEMPLATE.format(what=label, spec=json.dumps(pspec), data=json.dumps(P_DATA))
+    try:
+        expr = pbuild(pspec)
+    except Exception as e:
+        ctx.count(f"param:skip-build:{label}:{type(e).__name__}")
+        return False
+    data = {k: np.array(v, dtype=np.float64) for k, v in P_DATA.items() if k in expr.inputs}
+    with np.errstate(all="ignore"):
+        try:
+            expected = extract_data(reinterpret(expr(**data)))
+        except Exception as e:
+            ctx.count(f"param:skip-eval:{label}:{type(e).__name__}")
+            return False
+        flat = []
+        def fl(v):
+            (flat.extend(np.ravel(np.asarray(v, dtype=np.float64))) if not isinstance(v, tuple) else [fl(x) for x in v])
+        fl(expected)
+        if not np.all(np.isfinite(flat)):
+            ctx.count(f"param:skip-nonfinite:{label}")
+            return False
+        try:
+            program = compile_funsor(expr)
+        except NotImplementedError:
+            ctx.count(f"param:declined-compile:{label}")
+            return True
+        except Exception as e:
+            ctx.fail("input", "C18.compile-raises", witness=wit, got=repr(e), expected="an OpProgram", python=py)
+            return True
+        variants = [("program", program)]
+        try:
+            variants.append(("pickle", pickle.loads(pickle.dumps(program))))
+        except Exception as e:
+            ctx.fail("input", "C18.pickle-raises", witness=wit, got=repr(e), expected="a program", python=py)
+            return True
+        try:
+            code = program.as_code()
+            env = {}
+            exec(code, None, env)
+            variants.append(("as_code", env["program"]))
+            ctx.count("param:as_code:exec")
+        except (NotImplementedError, ValueError) as e:
+            ctx.count(f"param:as_code-declined:{label}")
+        except SyntaxError as e:
+            ctx.fail("input", "C18.as_code-syntax", witness=wit, got=code, expected="valid python", python=py)
+            return True
+        for nm, fn in variants:
+            try:
+                got = fn(**data)
+            except Exception as e:
+                ctx.fail("input", f"C18.{nm}-raises", witness=wit, got=repr(e), expected=jsonable(expected), python=py)
+                return True
+            if not same_value(got, expected, 1e-11):
+                ctx.fail("input", f"C18.{nm}-ne-eval", witness=wit, got=jsonable(got), expected=jsonable(expected),
+                         python=py)
+                return True
+    ctx.count(f"param:{label}")
+    # model of _print_op on every parametrised op of the program (fidelity: counted)
+    if use_driver:
+        from funsor.ops.program import _print_op
+        reqs, real = [], []
+        for op, _ in program.operations:
+            if op is make_tuple or not getattr(op, "defaults", None):
+                continue
+            try:
+                dflt = type(op)().defaults
+            except Exception:
+                continue
+            q = lambda xs: "(" + " ".join('"' + str(x).replace('"', "'") + '"' for x in xs) + ")"
+            reqs.append(f'C18 printop "{type(op).__name__}" {q(op.defaults.keys())} {q(dflt.values())} {q(op.defaults.values())}')
+            real.append((op, _print_op(op)))
+        if reqs:
+            for a, (op, txt) in zip(ctx.driver.ask(reqs), real):
+                if not a.startswith("ok "):
+                    ctx.infra_errors.append(f"driver answered {a!r}")
+                    return True
+                pr, back = parse_sx("(" + a[3:] + ")")
+                model_txt = (f"ops.{pr[1]}(" + ", ".join(pr[2]) + ")") if pr[0] == "ctor" else None
+                if pr[0] == "ref":
+                    same_txt = txt == repr(op)
+                else:
+                    same_txt = txt == model_txt
+                ctx.count("param-fidelity:print_op-" + ("same" if same_txt else "DIFFERENT"))
+                if back == "none" or [str(x) for x in back] != [str(v) for v in op.defaults.values()]:
+                    ctx.infra_errors.append(f"Lean printOp does not round-trip on {txt}: {a}")
+                    return True
+    nops = len(program.operations)
+    ctx.case(sample=wit if len(ctx.samples) < 6 and nops >= 2 else None,
+             nontrivial_key=("param", json.dumps(pspec)) if nops >= 2 else None)
+    return True
+
+
+def param_specs():
+    """Exhaustive: every parametrised op x every default / non-default combination of its parameters,
+    applied to the shared sub-expression e = x*s + y (shape (3,2)) and re-used afterwards."""
+    V = lambda n: ["var", n, P_INPUTS[n]]
+    base = [V("x"), V("s"), V("y"), ["ew", "mul", 0, 1], ["ew", "add", 3, 2]]       # node 4 = e
+    E = 4
+    out = []
+
+    def wrap(label, extra, use_s=True):
+        nodes = base + extra
+        r = len(nodes) - 1
+        nodes = nodes + ([["ew", "mul", r, 1]] if use_s else []) + [["tuple", [len(nodes) if use_s else r, E]]]
+        out.append((label, {"nodes": nodes, "root": len(nodes) - 1, "interp": "reflect"}))
+    for lo in (None, -0.25):
+        for hi in (None, 0.5):
+            wrap(f"clamp({lo},{hi})", [["pop", "clamp", [lo, hi], E]])
+    for op in REDUCTIONS + ARG_REDUCTIONS:
+        for axis in (None, 0, 1, -1):
+            for keep in (False, True):
+                wrap(f"{op}(axis={axis},keepdims={keep})", [["pop", op, [axis, keep], E]])
+    for op in BOOL_REDUCTIONS:
+        for axis in (None, 0, 1, -1):
+            for keep in (False, True):
+                wrap(f"{op}(axis={axis},keepdims={keep})",
+                     [["num", 0.5], ["ew", "gt", E, 5], ["pop", op, [axis, keep], 6]], use_s=False)
+    for op in MOMENT_REDUCTIONS:
+        for axis in (None, 0, 1):
+            for ddof in (0, 1):
+                for keep in (False, True):
+                    wrap(f"{op}(axis={axis},ddof={ddof},keepdims={keep})", [["pop", op, [axis, ddof, keep], E]])
+    for ix in SLICES:
+        wrap(f"getslice[{ix}]", [["slice", ix, E]])
+    for off in (0, 1):
+        for k in (0, 1):
+            wrap(f"getitem(offset={off})[{k}]", [["getitem", off, E, k, 3 if off == 0 else 2]])
+    for shape in ([2, 3], [6], [1, 3, 2], [3, 2]):
+        wrap(f"reshape{shape}", [["pop", "reshape", [shape], E]])
+    for a, b_ in ((0, 1), (1, 0), (-1, -2), (0, 0)):
+        wrap(f"transpose({a},{b_})", [["pop", "transpose", [a, b_], E]])
+    for perm in ([1, 0], [0, 1]):
+        wrap(f"permute{perm}", [["pop", "permute", [perm], E]])
+    for d in (0, 1, 2, -1):
+        wrap(f"unsqueeze({d})", [["pop", "unsqueeze", [d], E]])
+    wrap("expand", [["pop", "expand", [[4, 3, 2]], E]])
+    for upper in (False, True):
+        wrap(f"triangular_inv(upper={upper})", [V("A"), ["pop", "triangular_inv", [upper], 5]])
+        for tr in (False, True):
+            wrap(f"triangular_solve(upper={upper},transpose={tr})",
+                 [V("A"), V("B"), ["pbin", "triangular_solve", [upper, tr], 6, 5]])
+    return out
+
+
+def gen_pspec(rng):
+    """Random compositions: parametrised ops stacked on each other with element-wise glue and sharing."""
+    nodes = [["var", "x", P_INPUTS["x"]], ["var", "s", []], ["var", "y", P_INPUTS["y"]],
+             ["ew", rng.choice(["mul", "add", "sub"]), 0, 1], ["ew", rng.choice(["add", "sub", "mul"]), 3, 2]]
+    pool = [0, 3, 4]
+    labels = []
+    for _ in range(rng.randint(1, 4)):
+        src = rng.choice(pool[-3:])
+        r = rng.random()
+        if r < 0.25:
+            lo, hi = rng.choice([(None, 0.5), (-0.25, None), (-0.5, 0.75), (None, -0.25), (None, None)])
+            nodes.append(["pop", "clamp", [lo, hi], src]); labels.append("clamp")
+        elif r < 0.6:
+            op = rng.choice(REDUCTIONS + ARG_REDUCTIONS[:1])
+            nodes.append(["pop", op, [rng.choice([None, 0, -1, None]), rng.choice([False, True, True])], src]); labels.append(op)
+        elif r < 0.75:
+            op = rng.choice(MOMENT_REDUCTIONS)
+            nodes.append(["pop", op, [rng.choice([None, None, 0]), rng.choice([0, 1, 1]), rng.choice([False, True])], src])
+            labels.append(op)
+        elif r < 0.87:
+            nodes.append(["slice", rng.choice(["0", "(Ellipsis, 0)", "-1", "slice(None, None, 2)"]), src]); labels.append("getslice")
+        else:
+            nodes.append(["pop", "unsqueeze", [rng.choice([0, -1])], src]); labels.append("unsqueeze")
+        pool.append(len(nodes) - 1)
+        if rng.random() < 0.5:
+            nodes.append(["ew", rng.choice(["add", "mul", "sub", "max"]), pool[-1], rng.choice([1, pool[-1]])])
+            pool.append(len(nodes) - 1)
+    if rng.random() < 0.5:
+        nodes.append(["tuple", [pool[-1], rng.choice(pool)]])
+    return "+".join(labels), {"nodes": nodes, "root": len(nodes) - 1, "interp": rng.choice(["reflect", "lazy"])}
+
+
+def param_stream(ctx, use_driver=True):
+    for label, pspec in param_specs():
+        check_pcase(ctx, pspec, use_driver, label.split("(")[0].split("[")[0])
+        if any(f.witness is not None for f in ctx.failures) or ctx.infra_errors:
+            return
+    n = 150 if ctx.tier == "quick" else 1500
+    for _ in range(n):
+        label, pspec = gen_pspec(ctx.rng)
+        check_pcase(ctx, pspec, use_driver, "random")
+        if any(f.witness is not None for f in ctx.failures) or ctx.infra_errors:
+            return
+
 # ---------------------------------------------------------------------------------------------
 # tracer
 # ---------------------------------------------------------------------------------------------
@@ -1026,7 +1324,11 @@ def correspond(ctx):
                 "(+exp/sigmoid/tanh/log1p in 30% of cases), binary add/sub/mul/max/min/truediv, x op x, Contraction "
                 "without reduction, 55% tuple roots with nested / empty / element-sharing tuples; reflect or lazy; "
                 "dyadic data.  Plus fixed structured cases, a batched-Tensor stream (must decline), and straight-line "
-                "functions of ops for trace_function.  Non-trivial = the program has >= 2 operations (tracer: >= 2 "
+                "functions of ops for trace_function, and a parametrised-op stream: EVERY default / non-default parameter "
+                "combination of clamp, sum/prod/amax/amin/logsumexp/mean/all/any/argmax/argmin (axis x keepdims), std/var "
+                "(axis x ddof x keepdims), getslice, getitem(offset), reshape/transpose/permute/unsqueeze/expand, "
+                "triangular_solve/inv on a shared array sub-expression, plus random stacks of them, each compared four ways "
+                "(substitution, program, pickled program, exec of as_code).  Non-trivial = the program has >= 2 operations (tracer: >= 2 "
                 "ops and a value); distinct by full spec + data.")
     rng = ctx.rng
     for spec, data in fixed_specs():
@@ -1042,6 +1344,8 @@ def correspond(ctx):
             done += 1
         if ctx.failures or ctx.infra_errors:
             break
+    if not (ctx.failures or ctx.infra_errors):
+        param_stream(ctx)
     nt = 200 if ctx.tier == "quick" else 3000
     for _ in range(nt):
         if ctx.failures or ctx.infra_errors:
@@ -1074,3 +1378,4 @@ def search(ctx, broken):
         check_trace(ctx, gen_trace_spec(rng, "thorough"), use_driver=False)
         if have():
             return
+    param_stream(ctx, use_driver=False)
